@@ -30,8 +30,8 @@ GRID = (
 )
 
 
-def make_cfg(name, seed, max_dev, envs=("old",), checks=("meta_exact", "queries_exact")):
-    cfg = c06.make_cfg(name, seed, max_dev=max_dev, checks=checks, schemas=["vt.aa", "vt.bb", "vt.cc", "vt.dd"], envs=envs)
+def make_cfg(name, seed, max_dev, envs=("old",), checks=("meta_exact", "queries_exact"), names=None):
+    cfg = c06.make_cfg(name, seed, max_dev=max_dev, checks=checks, schemas=["vt.aa", "vt.bb", "vt.cc", "vt.dd"], envs=envs, names=names)
     G, GD, E, H, GF = cfg["paths"]
     ops = [o for o in cfg["ops"] if o[0] not in ("R", "B")]
     ops += [["attach", E, "vt.xx"], ["attach", G, "vt.zz"], ["attach", GD, "core.file"], ["detach", GD, "vt.cc"], ["attach", E, "vt.a0"], ["attach", "/", "vt.a0"], ["R"], ["B"]]
@@ -290,12 +290,19 @@ def run(tier, seed):
     budget = 170 if q else 2400
     t0 = time.time()
     fam, violations, samples = {}, [], []
-    with parallel.make_pool("mc.props.c07", {"cfgs": {"c07": cfg}, "envs": ["old"], "check_modules": ["mc.props.c07"]}) as pool:
+    cfg_odd = make_cfg("c07odd", seed, 1, names=c06.ODD_NAMES)
+    with parallel.make_pool("mc.props.c07", {"cfgs": {"c07": cfg, "c07odd": cfg_odd}, "envs": ["old"], "check_modules": ["mc.props.c07"]}) as pool:
         for drv in ("h5", "ih5"):
             r = contexp.bfs(pool, "c07", cfg, drv, depth[drv], budget_s=budget * 0.6, t0=t0)
             violations += r.pop("violations")
             samples += [{"driver": drv, "history": h} for h in r.pop("samples")[:1]]
             fam[drv] = r
+        # the same alphabet over unusual but legal node names
+        for drv in ("h5", "ih5"):
+            r = contexp.bfs(pool, "c07odd", cfg_odd, drv, 2 if q or drv == "ih5" else 3, budget_s=budget * 0.7, t0=t0)
+            violations += r.pop("violations")
+            r.pop("samples")
+            fam[drv + "-odd-names"] = r
         r = contexp.bfs(pool, "c07", cfg, "h5", 1 if q else 2, budget_s=budget * 0.7, t0=t0, start=c06.starts(cfg)["rich"])
         violations += r.pop("violations")
         fam["h5-from-rich"] = r
@@ -403,7 +410,7 @@ def replay(data):
             if v is not None:
                 return v
         return None
-    cfg = make_cfg("c07", env.seed(), 9)
+    cfg = make_cfg(c.get("cfg", "c07"), env.seed(), 9, names=c06.names_for(c.get("cfg")))
     cfg["checks"] = c["checks"]
-    contexp.worker_init({"c07": cfg}, envs=["old"], check_modules=["mc.props.c07"])
+    contexp.worker_init({cfg["name"]: cfg}, envs=["old"], check_modules=["mc.props.c07"])
     return contexp.check_history((cfg, c["driver"], data["history"]))
